@@ -18,7 +18,7 @@ variable {V : Type}
 def absState (c : Codec V) (d : Bits) : LState V := ⟨items c d, trailing c.w d⟩
 
 /-- One step: same outcome, and the abstraction commutes (items = list after the step, trailing bits unchanged). -/
-theorem array_refines_list_step (c : Codec V) (vo : ValOps V) (hu : c.mult = 1) (hL : 0 < c.L) (hwf : c.WF)
+theorem array_refines_list_step (c : Codec V) (vo : ValOps V) (hL : 0 < c.w) (hwf : c.WF)
     (op : Op V) (d : Bits) (hop : admissible c vo d op = true) :
     sameOutcome (arrStep c vo op d).res (listStep c vo op (absState c d)).2 ∧
     absState c (arrStep c vo op d).data = (listStep c vo op (absState c d)).1 := by
@@ -30,14 +30,14 @@ theorem listStep_trailing (c : Codec V) (vo : ValOps V) (op : Op V) (s : LState 
   sorry
 
 /-- Whole histories, by induction over the operation list. -/
-theorem array_refines_list (c : Codec V) (vo : ValOps V) (hu : c.mult = 1) (hL : 0 < c.L) (hwf : c.WF)
+theorem array_refines_list (c : Codec V) (vo : ValOps V) (hL : 0 < c.w) (hwf : c.WF)
     (ops : List (Op V)) (d : Bits) (hadm : Admissible c vo ops d) :
     List.Forall₂ sameOutcome (arrRun c vo ops d).2 (listRun c vo ops (absState c d)).2 ∧
     absState c (arrRun c vo ops d).1 = (listRun c vo ops (absState c d)).1 := by
   sorry
 
 /-- `trailing_preserved`: after any admissible history the trailing bits are the initial ones. -/
-theorem trailing_preserved (c : Codec V) (vo : ValOps V) (hu : c.mult = 1) (hL : 0 < c.L) (hwf : c.WF)
+theorem trailing_preserved (c : Codec V) (vo : ValOps V) (hL : 0 < c.w) (hwf : c.WF)
     (ops : List (Op V)) (d : Bits) (hadm : Admissible c vo ops d) :
     trailing c.w (arrRun c vo ops d).1 = trailing c.w d := by
   sorry
